@@ -15,6 +15,8 @@ use ndarray_interp::interp2d::{Bilinear, Interp2D, Interp2DBuilder};
 use ndarray_interp::vector_extensions::{Monotonic, VectorExtensions};
 use ndarray_interp::{BuilderError, InterpolateError};
 
+use ndarray::ShapeBuilder;
+
 use crate::proto::*;
 use crate::q::Q;
 use crate::z::Z;
@@ -180,7 +182,29 @@ fn make_bc<T: Scalar, D: Dimension>(bc: BcSpec<T>) -> Result<BoundaryCondition<T
         BcSpec::Per => BoundaryCondition::Periodic,
         BcSpec::Ind(shape, rbs) => {
             let a = ArrayD::from_shape_vec(IxDyn(&shape), rbs)
-                .map_err(|e| format!("boundary array: {e}"))?
+                .map_err(|e| format!("boundary array: {e}"))?;
+            // the same logical array in one of four memory layouts (C, F, innermost axis reversed, all axes reversed)
+            let a = match mix_bits(8, 3) {
+                1 => {
+                    let mut f = ArrayD::from_elem(IxDyn(&shape).f(), RowBoundary::NotAKnot);
+                    f.assign(&a);
+                    f
+                }
+                k @ (2 | 3) if a.ndim() > 0 => {
+                    let axes: Vec<usize> = if k == 2 { vec![a.ndim() - 1] } else { (0..a.ndim()).collect() };
+                    let mut b = a.clone();
+                    for &ax in &axes {
+                        b.invert_axis(ndarray::Axis(ax));
+                    }
+                    let mut c = b.as_standard_layout().into_owned();
+                    for &ax in &axes {
+                        c.invert_axis(ndarray::Axis(ax));
+                    }
+                    c
+                }
+                _ => a,
+            };
+            let a = a
                 .into_dimensionality::<D>()
                 .map_err(|_| "inexpressible: boundary rank differs from static data rank".to_string())?;
             BoundaryCondition::Individual(a)
@@ -273,6 +297,12 @@ macro_rules! i1_entries {
         let it = &$it;
         match $entry {
             "build" => Outcome::Text("built".into()),
+            // `idx n q1 .. qn`: consecutive `get_index_left_of` calls on this one interpolator
+            "idx" => {
+                let qs: Vec<$T> = list($t)?;
+                let is: Vec<String> = qs.iter().map(|&q| it.get_index_left_of(q).to_string()).collect();
+                Outcome::Text(format!("idxs {} {}", is.len(), is.join(" ")).trim_end().to_string())
+            }
             "single" => {
                 let q: $T = scalar($t)?;
                 match it.interp(q) {
@@ -321,20 +351,59 @@ fn order_bit(k: u32) -> bool {
     ORDER.with(|o| (o.get() >> k) & 1 == 1)
 }
 
+/// bits of a hash of the record id: select among equivalent ways of storing / configuring the same thing
+/// (boundary-array layout, setter histories); the model has no notion of them
+fn mix_bits(shift: u32, mask: u64) -> u64 {
+    ORDER.with(|o| (o.get().wrapping_add(1).wrapping_mul(0x9E37_79B9_7F4A_7C15) >> (32 + shift)) & mask)
+}
+
+/// the spline strategy builder with `extrapolate(ext)` and `boundary(bc)` as its *final* settings; some records first
+/// go through an earlier configuration that the final setters replace (a builder's result must depend on its final
+/// settings only)
+fn spline_strat<T: Scalar, D: Dimension + ndarray::RemoveAxis>(
+    ext: bool,
+    bc: BoundaryCondition<T, D>,
+) -> CubicSpline<T, D> {
+    let mut s = CubicSpline::new();
+    match mix_bits(0, 7) {
+        1 => s = s.boundary(BoundaryCondition::Periodic).extrapolate(true),
+        2 => s = s.extrapolate(true).boundary(BoundaryCondition::Periodic),
+        3 => s = s.extrapolate(true).boundary(BoundaryCondition::Periodic).extrapolate(false),
+        4 => s = s.boundary(BoundaryCondition::Natural).extrapolate(!ext),
+        _ => {}
+    }
+    if order_bit(0) {
+        s.boundary(bc).extrapolate(ext)
+    } else {
+        s.extrapolate(ext).boundary(bc)
+    }
+}
+
+fn bilinear_strat(ext: bool) -> Bilinear {
+    match mix_bits(0, 3) {
+        1 => Bilinear::new().extrapolate(!ext).extrapolate(ext),
+        _ => Bilinear::new().extrapolate(ext),
+    }
+}
+
+fn linear_strat(ext: bool) -> Linear {
+    match mix_bits(0, 3) {
+        1 => Linear::new().extrapolate(!ext).extrapolate(ext),
+        2 => Linear::default().extrapolate(ext),
+        _ => Linear::new().extrapolate(ext),
+    }
+}
+
 macro_rules! i1_built {
     ($T:ty, $D:ty, $builder:expr, $spec:expr, $entry:expr, $t:expr) => {{
         match $spec {
-            StratSpec::Lin(ext) => match $builder.strategy(Linear::new().extrapolate(ext)).build() {
+            StratSpec::Lin(ext) => match $builder.strategy(linear_strat(ext)).build() {
                 Err(e) => berr(e),
                 Ok(it) => i1_entries!($T, $D, it, $entry, $t),
             },
             StratSpec::Spl(ext, bc) => {
                 let bc = make_bc::<$T, $D>(bc)?;
-                let strat = if order_bit(0) {
-                    CubicSpline::new().boundary(bc).extrapolate(ext)
-                } else {
-                    CubicSpline::new().extrapolate(ext).boundary(bc)
-                };
+                let strat = spline_strat(ext, bc);
                 match $builder.strategy(strat).build()
                 {
                     Err(e) => berr(e),
@@ -354,7 +423,7 @@ macro_rules! i1_dim {
             // the queries go to an interpolator assembled by `Interp1D::new_unchecked` from the same parts
             Some(x) if order_bit(2) && order_bit(3) && matches!($spec, StratSpec::Lin(_)) => {
                 let StratSpec::Lin(ext) = $spec else { unreachable!() };
-                match Interp1D::builder(d.clone()).x(cow1(x)).strategy(Linear::new().extrapolate(ext)).build() {
+                match Interp1D::builder(d.clone()).x(cow1(x)).strategy(linear_strat(ext)).build() {
                     Err(e) => berr(e),
                     Ok(_) => {
                         let it = Interp1D::new_unchecked(cow1(x), d, Linear::new().extrapolate(ext));
@@ -379,7 +448,7 @@ fn i1_scalar<T: Scalar>(
     macro_rules! go {
         ($b:expr) => {
             match spec {
-                StratSpec::Lin(ext) => match $b.strategy(Linear::new().extrapolate(ext)).build() {
+                StratSpec::Lin(ext) => match $b.strategy(linear_strat(ext)).build() {
                     Err(e) => berr(e),
                     Ok(it) => match it.interp_scalar(q) {
                         Ok(v) => Outcome::Text(format!("ok 0 {}", fmt_vals([v].into_iter()))),
@@ -388,11 +457,7 @@ fn i1_scalar<T: Scalar>(
                 },
                 StratSpec::Spl(ext, bc) => {
                     let bc = make_bc::<T, Ix1>(bc)?;
-                    let strat = if order_bit(0) {
-                        CubicSpline::new().boundary(bc).extrapolate(ext)
-                    } else {
-                        CubicSpline::new().extrapolate(ext).boundary(bc)
-                    };
+                    let strat = spline_strat(ext, bc);
                     match $b.strategy(strat).build() {
                         Err(e) => berr(e),
                         Ok(it) => match it.interp_scalar(q) {
@@ -480,6 +545,18 @@ macro_rules! i2_entries {
         let it = &$it;
         match $entry {
             "build" => Outcome::Text("built".into()),
+            // `idx n x1 y1 .. xn yn`: consecutive `get_index_left_of` calls on this one interpolator
+            "idx" => {
+                let qs: Vec<$T> = list($t)?;
+                let is: Vec<String> = qs
+                    .chunks(2)
+                    .map(|c| {
+                        let (i, j) = it.get_index_left_of(c[0], c[1]);
+                        format!("{i} {j}")
+                    })
+                    .collect();
+                Outcome::Text(format!("idxs {} {}", is.len(), is.join(" ")).trim_end().to_string())
+            }
             "single" => {
                 let x: $T = scalar($t)?;
                 let y: $T = scalar($t)?;
@@ -524,7 +601,7 @@ macro_rules! i2_entries {
 
 macro_rules! i2_built {
     ($T:ty, $D:ty, $builder:expr, $ext:expr, $entry:expr, $t:expr) => {{
-        match $builder.strategy(Bilinear::new().extrapolate($ext)).build() {
+        match $builder.strategy(bilinear_strat($ext)).build() {
             Err(e) => berr(e),
             Ok(it) => i2_entries!($T, $D, it, $entry, $t),
         }
@@ -543,7 +620,7 @@ macro_rules! i2_dim {
                 i2_built!($T, $D, Interp2DBuilder::new(d).y(cow1(y)), $ext, $entry, $t)
             }
             (Some(x), Some(y)) if order_bit(2) && order_bit(3) => {
-                match Interp2D::builder(d.clone()).x(cow1(x)).y(cow1(y)).strategy(Bilinear::new().extrapolate($ext)).build() {
+                match Interp2D::builder(d.clone()).x(cow1(x)).y(cow1(y)).strategy(bilinear_strat($ext)).build() {
                     Err(e) => berr(e),
                     Ok(_) => {
                         let it = Interp2D::new_unchecked(cow1(x), cow1(y), d, Bilinear::new().extrapolate($ext));
@@ -579,7 +656,7 @@ fn i2_scalar<T: Scalar>(
     let d = cow_d::<T, Ix2>(&data)?;
     macro_rules! go {
         ($b:expr) => {
-            match $b.strategy(Bilinear::new().extrapolate(ext)).build() {
+            match $b.strategy(bilinear_strat(ext)).build() {
                 Err(e) => berr(e),
                 Ok(it) => match it.interp_scalar(qx, qy) {
                     Ok(v) => Outcome::Text(format!("ok 0 {}", fmt_vals([v].into_iter()))),
